@@ -176,6 +176,51 @@ def rule_get_key(src, rep, km, counts):
                                witness={"seq": repr(seq), "encoding": enc, "full": full, "decoder": str(r), "expected": exp[0]})
     if not bad:
         rep.ob("K3-decoder-vs-reference", f.where(), f.scope, "%d (sequence, encoding, full) cases: %s" % (n, kinds), True)
+    # "reports every character as itself" - in all three naming modes: single bytes and characters under the other two modes
+    m = badm = 0
+    for enc in ENCODINGS:
+        for seq in seqs:
+            if seq[:1] == b"\x1b" or not km.decodable(seq, enc) or len(seq.decode(enc)) != 1:
+                continue
+            for mode in ("CURSES", "BYTES"):
+                for full in (False, True):
+                    if km.expected(seq, enc, full)[0] != "name":
+                        continue
+                    r = km.get_key(seq, enc, mode, full)
+                    if r[0] == "opaque":
+                        raise AnalysisError("get_key outside the evaluated subset for %r under %s naming: %s" % (seq, mode, r[1]))
+                    m += 1
+                    rep.case(True)
+                    want = km.expected_name(seq, enc, mode)
+                    if r != ("ok", want):
+                        badm += 1
+                        if badm <= 3:
+                            rep.ob("K3-characters-reported-as-themselves-in-every-mode", f.where(), f.scope, "%r, %s, %s naming, full=%s" % (seq, enc, mode, full), False,
+                                   "get_key gives %s; the character is %r and has %s" % (r, seq.decode(enc), "the table name %r" % want if seq in km.curses and mode == "CURSES" else "no table name, so it is reported as %r" % (want,)),
+                                   witness={"seq": repr(seq), "encoding": enc, "mode": mode, "full": full})
+    if not badm:
+        rep.ob("K3-characters-reported-as-themselves-in-every-mode", f.where(), f.scope, "%d (character, encoding, mode, full) cases" % m, True)
+    # an encoding is the same encoding under every name the codec registry knows it by
+    aliases = {"utf8": ("UTF-8", "utf_8", "U8"), "ascii": ("ANSI_X3.4-1968", "646", "us-ascii"), "latin-1": ("iso8859-1", "L1", "iso-8859-1")}
+    probe = [bytes([b]) for b in (0x41, 0x80, 0xa9, 0xc3, 0xe9, 0xff)] + [b"\xe9a", b"\xc3\xa9", b"\xc3", b"\x1b[A", b"\x1b\xe9", b"\xe9\x1b[A"]
+    ma = bada = 0
+    for enc, names in aliases.items():
+        for alias in names:
+            for seq in probe:
+                for full in (False, True):
+                    a, b = km.get_key(seq, enc, "CURTSIES", full), km.get_key(seq, alias, "CURTSIES", full)
+                    if "opaque" in (a[0], b[0]):
+                        raise AnalysisError("get_key outside the evaluated subset for %r under encoding name %r: %s" % (seq, alias, b))
+                    ma += 1
+                    rep.case(True)
+                    if a != b:
+                        bada += 1
+                        if bada <= 3:
+                            rep.ob("K3-encoding-known-by-every-name", f.where(), f.scope, "%r under %r vs %r, full=%s" % (seq, alias, enc, full), False,
+                                   "get_key gives %s under the name %r and %s under %r - the same codec" % (b, alias, a, enc),
+                                   witness={"seq": repr(seq), "alias": alias, "encoding": enc})
+    if not bada:
+        rep.ob("K3-encoding-known-by-every-name", f.where(), f.scope, "%d (sequence, alias, full) cases" % ma, True)
     counts["get_key_cases"] = n
     counts["get_key_kinds"] = kinds
     # argument guards
